@@ -486,7 +486,7 @@ Definition k_dyad (f : string) (a b : val) : string :=
   if fis f "eval_dyad_reshape" then
     (match b with
      | VY _ => if reshape_guards_symbols then "" else "reshape-symbol"
-     | VC _ => (match a with VI 0 => "reshape-symbol" | _ => "" end)
+     | VC _ => (match a with VI 0 => "reshape-char-0" | _ => "" end)
      | VL l => if existsb is_arr l then "reshape-nested" else ""
      | _ => "" end) else
   ""
